@@ -154,6 +154,12 @@ func runC09(r *Run) {
 			// untyped: generated event streams (healthy core of C06)
 			gc := untypedBaseCfg()
 			gc.NoComments = false
+			if idx%4 == 0 {
+				// markers (without references: references in untyped containers are a recorded C06 finding)
+				gc.NoMarkers = false
+				gc.NoRefs = true
+				gc.MarkerHeavy = true
+			}
 			g := NewGen(rng, gc)
 			evs := g.Doc()
 			if v, _ := runRules(evs, cfg); v != "ACC" {
